@@ -134,6 +134,15 @@ class Renderer:
                     self.emit(ind, f"await {s[1]}")
                 else:
                     self.emit(ind, f"await cohdl.expr({s[1]})")
+        elif k == 'awaitcall':
+            if ref:
+                # the helper runs once (its statements make this await a non-first action), then its result is polled
+                self.emit(ind, f"_aw_{s[1]} = {s[1]}()")
+                self.tick(ind)
+                self.emit(ind, f"while not (_aw_{s[1]}):")
+                self.tick(ind + 1)
+            else:
+                self.emit(ind, f"await {s[1]}()")
         elif k == 'awaittrue':
             if ref:
                 if not first:
